@@ -18,6 +18,7 @@ import QV.Lemmas.StoreIO
 import QV.Lemmas.PhaseAux
 
 namespace QV.Props
+namespace C20
 open QV QV.Store QV.PhaseAux
 
 /-! ### specification vocabulary -/
@@ -415,4 +416,5 @@ example : ∀ g ∈ [batchGradAux [(0 : ℝ)] 2,
     · exact .rotated 1 1 _ _ (fun _ _ _ => ((0.3 : ℝ), 0.7))
     · exact .zBasis
 
+end C20
 end QV.Props
